@@ -125,6 +125,8 @@ def binop_configs(tier):
     ops = list(BIN) + list(IBIN) + list(CMP)
     for (lk, ls), (rk, rs) in itertools.product(LEFTS, RIGHTS):
         for op in ops:
+            if ls == (2, 3) and rs == (2, 3) and lk == rk == 'SparseArray' and op in ('gt', 'lt', 'ge', 'le'):
+                continue      # 12 maybe-zero leaves x 6 three-way comparisons exceed the path budget; covered at 2x2 and by mode U for any size
             if tier == 'quick':
                 # quick: two operators of each class on shapes up to 2x2 (3 only as a mismatching length)
                 if op not in QUICK_OPS: continue
